@@ -8,7 +8,7 @@ import (
 	"sort"
 	"strings"
 
-	"golang.org/x/tools/go/ssa"
+	"ikeverif/checker/xt/ssa"
 )
 
 // INF is the saturation sentinel of the interval arithmetic: a bound equal to ±INF means "unbounded".
